@@ -1412,8 +1412,9 @@ fn gen_client(repo: &Path, g: &mut Gen) -> R<()> {
     // … and is the shared write half's lock taken inside that future too (waiting for it is part of handing the request over:
     // a clone whose send is stuck holds it), not in a statement before the timeout starts?
     let lock_outside = rt[..at].split(';').any(|st| st.contains("write_half") && (st.contains(". lock ()") || st.contains(". lock_owned ()")) && st.contains(". await"));
-    let covers = bounded.contains(". send (") && !lock_outside;
-    if !covers && !rt[..at].contains(". send (") { return shape(rq_rel, "request(): no `.send(…)` before or inside the timeout"); }
+    let send_inside = bounded.contains(". send (");
+    let covers = send_inside && !lock_outside;
+    if !send_inside && !rt[..at].contains(". send (") { return shape(rq_rel, "request(): no `.send(…)` before or inside the timeout"); }
     let _ = writeln!(s, "/-- {rq_rel}: does the per-request timeout also bound handing the request to the transport (`send(frame)`)? -/\ndef requestTimeoutCoversSend : Bool := {covers}");
     // the request id counter shared by a requestor and its clones: how many bits before it wraps
     let id_rel = "protocol/src/request_id.rs";
